@@ -999,7 +999,27 @@ class _ExprMixin:
         return out
 
     def ev_Lambda(self, n):
-        return Op("lambda", Const(ast.unparse(n)))
+        """a lambda is an anonymous nested function: def <lambda>(args): return <body>"""
+        cache = self.__dict__.setdefault("_lambda_infos", {})
+        fr = self.frames[-1]
+        key = (id(n), id(fr.finfo))
+        fi = cache.get(key)
+        if fi is None:
+            from .model import FuncInfo
+            fn = ast.FunctionDef(name="<lambda:%d>" % getattr(n, "lineno", 0), args=n.args,
+                                 body=[ast.Return(value=n.body)], decorator_list=[], returns=None, type_comment=None)
+            try:
+                fn.type_params = []
+            except Exception:
+                pass
+            ast.copy_location(fn, n)
+            ast.copy_location(fn.body[0], n)
+            m = self.prog.modules.get(fr.modname)
+            if m is None:
+                return Op("lambda", Const(ast.unparse(n)))
+            fi = FuncInfo(m, fn, parent=fr.finfo) if fr.finfo is not None else FuncInfo(m, fn)
+            cache[key] = fi
+        return FuncV(fi)
 
     def ev_Starred(self, n):
         return Op("starred", self.ev(n.value))
